@@ -19,7 +19,7 @@ var libTable = map[string]libFn{}
 // noopLib: library functions that neither read nor write any state the contracts talk about
 // (timers, error wrapping, time arithmetic). Results are unconstrained.
 var noopLib = map[string]bool{
-	"(*time.Timer).Stop": true, "(*time.Timer).Reset": true, "time.NewTimer": true, "time.Until": true,
+	"(*time.Timer).Stop": true, "(*time.Timer).Reset": true, "time.Until": true,
 	"(time.Time).IsZero": true, "(time.Time).Add": true, "(time.Time).After": true, "(time.Time).Before": true,
 	"(time.Time).Sub": true, "(time.Time).UnixMilli": true, "(time.Time).UnixNano": true, "time.Now": true, "time.Since": true,
 	"github.com/pkg/errors.Wrap": true, "fmt.Sprintf": true, "fmt.Errorf": true,
